@@ -22,7 +22,7 @@ META = {
             "every operation; TLC validates order, stability of sorted insertion, sort = ordered permutation, ring order. "
             "Concurrent histories of the locked functions (all interleavings of small scenarios at yield-point "
             "granularity, random schedules, free-running threads) are checked for linearizability by TLC.",
-    "note": "Exhaustive: basic family <= 4 operations over 4 interchangeable items, sorted family <= 3 (quick) / 4 (thorough) "
+    "note": "Exhaustive: basic family <= 3 (quick) / 4 (thorough) operations over 4 interchangeable items, sorted family <= 3 (quick) / 4 (thorough) "
             "operations over 4 items with priorities {0,1,1,2} and chains of <= 2, ring family all orders of 5 items; random "
             "walks of 14-30 operations over 6-8 items with 3 priorities. Concurrent: 2 threads x <= 3 operations "
             "exhaustively, 3 threads by random schedules, 4 free-running threads. Sorted insertion is only specified on "
@@ -48,7 +48,7 @@ def consts(prio, ml, mc, ops, canon):
 
 def sequential(ctx, d, exe):
     q = ctx.quick
-    cfgs = [("basic", consts([0, 0, 0, 0], 4, 2, BASIC, True), None),
+    cfgs = [("basic", consts([0, 0, 0, 0], 3 if q else 4, 2, BASIC, True), None),
             ("sorted", consts([0, 1, 1, 2], 3 if q else 4, 2, SORTED, False), None),
             ("ring", consts([0, 1, 1, 2, 0], 5, 1, RING, False), None),
             ("simsorted", consts([0, 1, 1, 2, 2, 0], 14 if q else 24, 3, SORTED_SIM, False), (14 if q else 24, 200 if q else 3000)),
